@@ -58,6 +58,9 @@ class Mod:
             self.tree = ast.parse(self.src, filename=self.path)
         except (OSError, SyntaxError) as e:
             raise AnalysisError("cannot parse %s: %s" % (self.rel, e))
+        # helpers introduced after the pinned commit are inlined into their callers (see inline.py)
+        from inline import Inliner
+        self.inlined = Inliner(name, self.tree).run()
         set_parents(self.tree)
         self.classes = {}
         self.funcs = {}
@@ -83,6 +86,23 @@ class Mod:
             elif isinstance(st, ast.Import):
                 for a in st.names:
                     self.imports[a.asname or a.name] = a.name
+
+
+def clone(n):
+    """structural copy of an AST (sub)tree WITHOUT the `_parent` back links (copy.deepcopy would follow
+    them and copy the whole module)"""
+    if isinstance(n, ast.AST):
+        new = n.__class__()
+        for f in n._fields:
+            if hasattr(n, f):
+                setattr(new, f, clone(getattr(n, f)))
+        for a in ("lineno", "col_offset", "end_lineno", "end_col_offset"):
+            if hasattr(n, a):
+                setattr(new, a, getattr(n, a))
+        return new
+    if isinstance(n, list):
+        return [clone(x) for x in n]
+    return n
 
 
 def set_parents(tree):
@@ -499,7 +519,7 @@ class _Subst(ast.NodeTransformer):
 
     def visit_Name(self, n):
         if isinstance(n.ctx, ast.Load) and n.id in self.m:
-            return self.m[n.id]
+            return clone(self.m[n.id])
         return n
 
 
@@ -508,7 +528,7 @@ def canon(e, subst=None):
     single-definition temporaries)."""
     if subst:
         import copy
-        e = _Subst(subst).visit(copy.deepcopy(e))
+        e = _Subst(subst).visit(clone(e))
         ast.fix_missing_locations(e)
     return ast.unparse(e)
 
